@@ -185,7 +185,7 @@ OnTx(rs, e) ==
         <<"C11.max3", (retry /\ ~rs.pasTaint /\ rs.unread = 0) => rs.pas.n + 1 <= 3>>,
         \* "repeats the pass ... if nothing is heard": no other station has put anything on the wire since the pass that is
         \* repeated (at least two character times ago, so that the passer could have heard it)
-        <<"C11.silent", (retry /\ ~single) => (last.by = s \/ e.t0 < last.t0 + 2 * 11 * (cfg.tid \div 33))>>,
+        <<"C11.silent", (passOn /\ rs.pas.by = s /\ rs.pas.to = d /\ ~single /\ cls \in {"PassSupervision", "None"}) => (last.by = s \/ e.t0 < last.t0 + 2 * 11 * (cfg.tid \div 33))>>,
         <<"C11.immediate", (retry /\ ~single /\ d \in St /\ d \in rs.online) => ~(gd.pending /\ gd.just /\ gd.inring /\ gd.froms = {s} /\ s = rs.pub[d].ps)>>,
         <<"C11.drop", (moveOn /\ rs.pas.by = s /\ ~rs.pasTaint /\ rs.unread = 0) => rs.pas.to \notin ToSet(rs.pub[s].las)>>,
         \* "repeats the pass at most twice if nothing is heard, THEN removes the silent successor": the successor is
